@@ -388,8 +388,10 @@ def run_property(pid, modules, tier, level_text=""):
         "wall_s": round(wall, 1),
         "violations": len(viol),
     }
-    os.makedirs(os.path.join(VERIF, "evidence"), exist_ok=True)
-    with open(os.path.join(VERIF, "evidence", pid + ".json"), "w") as f:
+    # a run against a scratch tree (vk/try_seed.sh sets VK_REPO_SRC) is not evidence about /repo: keep it out of evidence/
+    evdir = os.path.join(VERIF, "evidence") if not os.environ.get("VK_REPO_SRC") else os.path.join(VERIF, "scratch", "seed-evidence")
+    os.makedirs(evdir, exist_ok=True)
+    with open(os.path.join(evdir, pid + ".json"), "w") as f:
         json.dump(ev, f, indent=1, default=str)
     print("%s tier=%s jobs=%d held=%d known=%d inconclusive=%d violations=%d paths+queries=%d wall=%.0fs" % (
         pid, tier, len(jobs), len({r['job'] for r in held}), len(kn), len(inc), len(viol), evaluations, wall))
